@@ -10,6 +10,7 @@ import (
 	"io"
 	"net/http"
 	"net/http/httptest"
+	"net/url"
 	"os"
 	"path/filepath"
 	"strings"
@@ -101,7 +102,18 @@ func TestC09_TransformRepeatable(t *testing.T) {
 			t.Fatal(err)
 		}
 		defer f.Close()
-		flags, _ := mod.FlagsFromQuery(nil)
+		q := url.Values{}
+		if format == "macho" {
+			// auxiliary files travel in the same upload stream as the image
+			for _, name := range []string{"entitlements", "info-plist", "requirements", "resources"} {
+				if rapid.Bool().Draw(t, "aux_"+name) {
+					ap := filepath.Join(dir, name+".bin")
+					os.WriteFile(ap, []byte("<?xml version=\"1.0\"?><plist><dict><key>"+name+"</key><true/></dict></plist>\n"+strings.Repeat("x", rapid.IntRange(0, 3000).Draw(t, "aux_len"))), 0o644)
+					q.Set(name, ap)
+				}
+			}
+		}
+		flags, _ := mod.FlagsFromQuery(q)
 		tr, err := mod.GetTransform(f, signers.SignOpts{Path: p, Hash: crypto.SHA256, Flags: flags})
 		if err != nil {
 			t.Skipf("transform refused: %v", err)
@@ -183,6 +195,25 @@ var schedules = map[string][]int{
 	"whole":       {1 << 30},
 }
 
+// maybePresign turns one input in three into an artefact already signed by relic.
+func maybePresign(t *rapid.T, a *arts.Artifact) *arts.Artifact {
+	if a.Format == "pgp" || a.Format == "xap" || rapid.IntRange(0, 2).Draw(t, "presigned") != 0 {
+		return a
+	}
+	dir, done := scratch()
+	defer done()
+	p := filepath.Join(dir, a.Name)
+	os.WriteFile(p, a.Data, 0o644)
+	if err := env.SignLib(&pipe.Req{SigType: a.SigType, In: p, Key: "rsa2048a", Hash: crypto.SHA256}); err != nil {
+		return a
+	}
+	blob, err := os.ReadFile(p)
+	if err != nil {
+		return a
+	}
+	return &arts.Artifact{Format: a.Format, SigType: a.SigType, Name: a.Name, Data: blob, Classes: append(append([]string{}, a.Classes...), "presigned"), Generated: a.Generated}
+}
+
 // signFlags are the signer flags of the case being run (set by drawFlags).
 var signFlags map[string]string
 
@@ -232,7 +263,7 @@ func TestC09_ReadSchedule(t *testing.T) {
 	names := []string{"1-byte", "primes", "4k-straddle", "64k", "1M-straddle", "mixed"}
 	rapid.Check(t, func(t *rapid.T) {
 		format := rapid.SampledFrom([]string{"pe", "msi", "jar", "apk", "apk", "ps", "cab", "appx", "vsix", "macho", "dmg", "pkg", "deb", "rpm"}).Draw(t, "format")
-		a := arts.Gen(t, format)
+		a := maybePresign(t, arts.Gen(t, format))
 		key, h := keyFor(t, format), hashFor(t, format)
 		flags := drawFlags(t, format)
 		sched := rapid.SampledFrom(names).Draw(t, "schedule")
@@ -241,6 +272,10 @@ func TestC09_ReadSchedule(t *testing.T) {
 		}
 		eofWith := rapid.Bool().Draw(t, "eof_with_data")
 		want, err := signAndDigest(t, a, key, h, nil, false)
+		if err != nil && strings.HasPrefix(err.Error(), "VERIFY:") {
+			evid.SaveCase("TestC09_ReadSchedule", map[string]any{"format": format, "classes": a.Classes, "error": err.Error()})
+			t.Fatalf("%s: the digest signed from the upload stream is not the one the verifier computes from the patched file: %v (classes %v)", format, err, a.Classes)
+		}
 		if err != nil {
 			t.Skipf("plain signing failed (C01's subject): %v", err)
 		}
@@ -383,11 +418,15 @@ func TestC09_Transport(t *testing.T) {
 		setupFronts(t)
 		format := rapid.SampledFrom([]string{"pe", "msi", "jar", "apk", "ps", "cab", "macho", "pkg", "deb"}).Draw(t, "format")
 		arts.APKBigMembers = false
-		a := arts.Gen(t, format)
+		a := maybePresign(t, arts.Gen(t, format))
 		arts.APKBigMembers = true
 		key, h := keyFor(t, format), hashFor(t, format)
 		drawFlags(t, format)
 		want, err := signAndDigest(t, a, key, h, nil, false)
+		if err != nil && strings.HasPrefix(err.Error(), "VERIFY:") {
+			evid.SaveCase("TestC09_Transport", map[string]any{"format": format, "classes": a.Classes, "error": err.Error()})
+			t.Fatalf("%s: the digest signed from the upload stream is not the one the verifier computes from the patched file: %v (classes %v)", format, err, a.Classes)
+		}
 		if err != nil {
 			t.Skipf("standalone signing failed (C01's subject): %v", err)
 		}
